@@ -146,8 +146,15 @@ def run(repo: Repo, chk: Check) -> None:
     dec = codec.decoder_traces(repo, tags=[0, 2, 7, 11])
     is_len_data = lambda t: isinstance(t, App) and t.op == 'len' and isinstance(t.args[0], Sym) and t.args[0].name == 'data'  # noqa
     um = repo.func(f'{FORGE}.unforge_micheline')
-    chk.ob('R-PATH', um.qualname, all(any(p[0] == 'raise' and any((not b) and term_contains(c, is_len_data) for c, b in p[3].conds) for p in dec[t]) for t in (0, 2, 7)),
-           'trailing bytes are rejected', um.loc, what='UNPACK accepts trailing bytes')
+    def eos_ok(t):
+        rets = [p for p in dec[t] if p[0] == 'return']
+        # every accepting path is conditioned on ptr == len(data) (equality, not an inequality) and a rejecting path exists for the negation
+        return bool(rets) and all(any(b and isinstance(c, App) and c.op == '==' and term_contains(c, is_len_data) for c, b in p[3].conds) for p in rets) \
+            and any(p[0] == 'raise' and any((not b) and isinstance(c, App) and c.op == '==' and term_contains(c, is_len_data) for c, b in p[3].conds) for p in dec[t])
+
+    chk.ob('R-PATH', um.qualname, all(eos_ok(t) for t in (0, 2, 7)),
+           'trailing bytes are rejected', um.loc, {'per_tag': {t: eos_ok(t) for t in (0, 2, 7)}},
+           what='UNPACK accepts trailing bytes: a decoded value is returned without the test that the whole input was consumed (ptr == len(data))')
     chk.ob('R-PATH', um.qualname, all(p[0] == 'raise' for p in dec[11]) and bool(dec[11]), 'unknown node tags are rejected', um.loc, what='UNPACK accepts unknown tags')
     ua = repo.func(f'{FORGE}.unforge_array')
     res = Interp(repo, Hooks(), max_depth=1).run_function(ua, [Sym('data', 'bytes')])
